@@ -9,7 +9,8 @@ CHECKS = {
     "C01": {"harnesses": [("harness.matching", "C01_ClearingRound"), ("harness.matching", "C01_Continuous"),
                           ("harness.priority", "C01_HeapMaintenance")]},
     "C02": {"harnesses": [("harness.priority", "C02_OrderLaws"), ("harness.priority", "C02_HeapMaintenance"),
-                          ("harness.matching", "C02_ClearingRound"), ("harness.matching", "C02_Continuous")]},
+                          ("harness.matching", "C02_ClearingRound"), ("harness.matching", "C02_Continuous")],
+            "post": ("harness.xcheck", "post_c02")},
     "C04": {"harnesses": [("harness.ophistory", "C04_OpHistory"), ("harness.ophistory", "C04_NegativeOps"),
                           ("harness.runs", "C04_Spoofing")]},
     "C05": {"harnesses": [("harness.runs", "C05_RunnerBasics")]},
